@@ -65,15 +65,18 @@ def verifyPrereqs (c : Cfg) (z : Zone) : List Rec → Option Rc
 def prescanOne (c : Cfg) (r : Rec) : Option Rc :=
   if !(Name.zoneOf c.origin r.name) then some .notZone
   else if r.cls = c.zclass then
-    if r.rtype = T_ANY ∨ r.rtype = T_AXFR ∨ r.rtype = T_IXFR then some .formErr else none
+    if r.rtype = T_ANY ∨ r.rtype = T_AXFR ∨ r.rtype = T_IXFR ∨ r.rtype = T_MAILB ∨ r.rtype = T_MAILA then
+      some .formErr
+    else none
   else if r.cls = C_ANY then
     if r.ttl ≠ 0 then some .formErr
     else if !r.isEmptyDataPrescan then some .formErr
-    else if r.rtype = T_AXFR ∨ r.rtype = T_IXFR then some .formErr
+    else if r.rtype = T_AXFR ∨ r.rtype = T_IXFR ∨ r.rtype = T_MAILB ∨ r.rtype = T_MAILA then some .formErr
     else none
   else if r.cls = C_NONE then
     if r.ttl ≠ 0 then some .formErr
-    else if r.rtype = T_ANY ∨ r.rtype = T_AXFR ∨ r.rtype = T_IXFR then some .formErr
+    else if r.rtype = T_ANY ∨ r.rtype = T_AXFR ∨ r.rtype = T_IXFR ∨ r.rtype = T_MAILB ∨ r.rtype = T_MAILA then
+      some .formErr
     else none
   else some .formErr
 
